@@ -348,6 +348,7 @@ package spine
 //@ func (*Sender).getMsgCounter
 //@   requires c != nil
 //@   ensures[C13] fresh-counter: result != nil && fresh(result) && *result == old(c.msgNum) + 1 && c.msgNum == old(c.msgNum) + 1
+//@   ensures[C13] atomic: acquisitions(c.msgNum) == 1
 //@   modifies c.msgNum
 
 //@ func (*Sender).sendSpineMessage
